@@ -221,7 +221,8 @@ def generate(rng, tier):
         options["proxyauth"] = f"{USER}:{PASSWORD}"
     if kind == "tcp":
         # must match every destination (also an empty host name), or port 53/5353 would select the DNS layer
-        options["tcp_hosts"] = [".*"] if r.random() < 0.8 else ["nomatch", r"^.*$"]
+        # ((?s): a domain name may contain a line feed, which '.' would not match)
+        options["tcp_hosts"] = [".*"] if r.random() < 0.8 else ["nomatch", r"(?s)^.*$"]
     else:
         # which layer follows SOCKS must not depend on how much payload the first read holds (that heuristic is
         # C19's subject): with rawtcp off everything that is not TLS is HTTP
